@@ -137,6 +137,24 @@ func runC13(c *core.Ctx) {
 			}
 		}
 	}
+	// big allocations (2^18 .. 2^22 samples: megabytes), narrow and 64-bit types
+	bi := 0
+	for _, total := range []int{1 << 18, 300000, 384000, 1 << 20, 1 << 22} {
+		for _, ch := range []int{1, 64} {
+			if total%ch != 0 {
+				continue
+			}
+			for _, ti := range []int{3, 12, 5, 1, 8} { // int64 float64 uint8 int16 uint64
+				bi++
+				if !c.Mine(bi) || (c.Quick() && total > 1<<20 && ti != 3) {
+					continue
+				}
+				k := total / ch
+				c13One(c, dyn.Types[ti], ch, []int{0, k, k / 3}[bi%3], k)
+				c.Obs("allocations_of_2^18_and_more_samples", 1)
+			}
+		}
+	}
 	// independence of simultaneously live allocations
 	for g := 0; g < c.Pick(120, 12000); g++ {
 		t := dyn.Types[r.Intn(len(dyn.Types))]
